@@ -23,7 +23,7 @@ CanFlags == << Flag("crcErr", 0, 1), Flag("ackErr", 0, 2), Flag("passiveAckErr",
 CommonFlags(word) == << Flag8("recalc", word, 1), Flag8("insync", word, 2), F("segmentType", word + 4, 2),
                         Flag8("diOnIf", word, 16), Flag8("overflow", word, 32), Flag8("errorInPayload", word, 64) >>
 
-Table == [
+Table0 == [
   cmpHeader |-> [size |-> 8,
       fields |-> << F("version", 0, 8), F("deviceId", 16, 16), F("messageType", 32, 8), F("streamId", 40, 8),
                     F("sequenceCounter", 48, 16) >>,
@@ -100,6 +100,11 @@ Table == [
                     Flag8("errorInPayload", 160, 64) >>]
 ]
 
+(* the public nested Header classes share the tables of their payload classes *)
+HeaderAlias == [canHeader |-> "can", canfdHeader |-> "canfd", linHeader |-> "lin", ethHeader |-> "eth", analogHeader |-> "analog",
+                cmHeader |-> "cm", ifHeader |-> "if"]
+Table == [c \in DOMAIN Table0 \cup DOMAIN HeaderAlias |-> IF c \in DOMAIN Table0 THEN Table0[c] ELSE Table0[HeaderAlias[c]]]
+
 Classes == DOMAIN Table
 WireClasses == Classes \ {"payloadType", "payload", "packet"}
 
@@ -131,6 +136,8 @@ Default(c) ==
     CASE c = "cmpHeader"   -> << 1, 0, 0, 0, 0, 0, 0, 0 >>
       [] c = "tecmpHeader" -> << 0, 0, 0, 0, 0, 255, 255, 0 >> \o Zeros(20)
       [] c = "cm"          -> Zeros(36)           \* header and five empty length-prefixed fields
+      [] c = "cmHeader"    -> Zeros(26)
+      [] c = "ifHeader"    -> Zeros(36)
       [] c = "if"          -> Zeros(40)           \* header, stream id count and vendor data length
       [] c = "packet"      -> << 1 >> \o Zeros(21)
       [] OTHER             -> Zeros(Table[c].size)
